@@ -92,7 +92,7 @@ def task(seed):
 def run(ctx):
     bridge.warm_up()
     quick = ctx.tier == "quick"
-    seeds = [ctx.sub(("w", i)) for i in range(320 if quick else 12000)]
+    seeds = [ctx.sub(("w", i)) for i in range(320 if quick else 40000)]
     res = runner.pmap(task, seeds, timeout=1500)
     calls = {n: 0 for n in NAMES}
     hits = {n: 0 for n in NAMES}
